@@ -263,6 +263,9 @@ def replay_free_energy(inputs):
     data[rng.random(shape) < 0.3] = 0
     if data.sum() == 0:
         data[(0,) * 3] = 3
+    if inputs.get('dynamic'):
+        data = data.astype(np.int64)
+        data[(0,) * 3] = 5 * 10 ** 9  # very wide dynamic range: visited voxels with probabilities far below 1e-8
     if inputs.get('scale'):
         data = data * float(inputs['scale'])  # averaged (non-integer) densities, possibly with a total below one
     vol = Volume(data=data, lattice=Lattice.cubic(4.0))
@@ -319,6 +322,10 @@ def bounded_free_energy(tier, seed):
         shape = [int(x) for x in rng.integers(1, 5, size=3)]
         inp = {'seed': int(rng.integers(1, 10 ** 6)), 'shape': shape, 'temperature': float([1.0, 300.0, 1000.0, 20000.0][c % 4]),
                'scale': [None, 0.01, 0.5, 3.7][(c // 4) % 4]}
+        if c % 7 == 5:
+            inp['dynamic'] = True
+            inp['scale'] = None
+            inp['shape'] = [max(2, x) for x in shape]
         r = st.guard(replay_free_energy, inp)
         if r is None:
             continue
